@@ -417,6 +417,10 @@ func (fx *FnCtx) frameCheck(st *State, pc *Term, p *PtrInfo) {
 			ok := tc.IdxLe(fx.root.entryNAlloc, p.Arr)
 			for _, it := range fx.root.frame {
 				if it.Kind == PElem && types.Identical(it.Root, p.Root) && it.Lo == nil {
+					if it.Arr == nil {
+						ok = True
+						continue
+					}
 					ok = Or(ok, Eq(p.Arr, it.Arr))
 				}
 			}
@@ -452,7 +456,9 @@ func (fx *FnCtx) frameCheckRange(st *State, pc *Term, el types.Type, arr, lo, hi
 		if it.Kind != PElem || !types.Identical(it.Root, el) {
 			continue
 		}
-		if it.Lo == nil {
+		if it.Arr == nil {
+			ok = True
+		} else if it.Lo == nil {
 			ok = Or(ok, Eq(arr, it.Arr))
 		} else {
 			ok = Or(ok, And(Eq(arr, it.Arr), tc.IdxLe(it.Lo, lo), tc.IdxLe(hi, it.Hi)))
@@ -494,15 +500,40 @@ func (fx *FnCtx) evalFrame(env *Env, exprs []SpecExpr, srcs []string) []FrameIte
 			// all(x): every field of the object x points to
 			if x.Fun == "objects" && len(x.Args) == 1 {
 				// objects(T): any object of struct type T (a whole linked structure)
-				id, ok := x.Args[0].(*SIdent)
-				if !ok {
+				var tname string
+				switch a := x.Args[0].(type) {
+				case *SIdent:
+					tname = a.Name
+				case *SField:
+					if id, ok := a.X.(*SIdent); ok {
+						tname = id.Name + "." + a.Name
+					}
+				}
+				if tname == "" {
 					fx.fail("modifies %s: objects(TypeName)", src)
 				}
-				t := fx.resolveType(id.Name, env.pkg)
+				t := fx.resolveType(tname, env.pkg)
 				if t == nil {
 					fx.fail("modifies %s: unknown type", src)
 				}
 				out = append(out, FrameItem{Kind: PObj, Root: t, Ref: nil, Src: src})
+				continue
+			}
+			if x.Fun == "arrays" && len(x.Args) == 1 {
+				// arrays(T): the elements of any array (slice backing store) with element type T
+				var t types.Type
+				switch a := x.Args[0].(type) {
+				case *SIdent:
+					t = fx.resolveType(a.Name, env.pkg)
+				case *SField:
+					if id, ok := a.X.(*SIdent); ok {
+						t = fx.resolveType(id.Name+"."+a.Name, env.pkg)
+					}
+				}
+				if t == nil {
+					fx.fail("modifies %s: arrays(TypeName)", src)
+				}
+				out = append(out, FrameItem{Kind: PElem, Root: t, Arr: nil, Src: src})
 				continue
 			}
 			if x.Fun == "all" && len(x.Args) == 1 {
@@ -522,6 +553,12 @@ func (fx *FnCtx) evalFrame(env *Env, exprs []SpecExpr, srcs []string) []FrameIte
 				}
 				fx.ghostHeap(env.st, "G:lock")
 				out = append(out, FrameItem{Kind: PGhost, Ref: p.Ref, Src: "G:lock"})
+				continue
+			}
+			if fx.V.cs.GhostFields[x.Fun] && len(x.Args) == 1 {
+				sv := fx.evalSpec(env, x.Args[0])
+				fx.ghostHeap(env.st, "G:"+x.Fun)
+				out = append(out, FrameItem{Kind: PGhost, Ref: fx.ghostOwner(x, sv.V), Src: "G:" + x.Fun})
 				continue
 			}
 			if x.Fun == "mapof" && len(x.Args) == 1 {
@@ -652,6 +689,17 @@ func (fx *FnCtx) havocFrame(st *State, pc *Term, items []FrameItem, base string)
 			// objects(T): every object of the type may have changed
 			for _, lf := range tc.Layout(it.Root).Leaves {
 				name := objHeapName(it.Root, lf)
+				fx.Heap(st, name, lf)
+				nw := Fresh(base+"_"+name, tc.heapSort(name, lf))
+				fx.noteHeapSymbol(nw, name, lf)
+				st.Heaps[name] = nw
+			}
+			continue
+		}
+		if it.Kind == PElem && it.Arr == nil {
+			// arrays(T): every array of this element type may have changed
+			for _, lf := range tc.Layout(it.Root).Leaves {
+				name := arrHeapName(it.Root, lf)
 				fx.Heap(st, name, lf)
 				nw := Fresh(base+"_"+name, tc.heapSort(name, lf))
 				fx.noteHeapSymbol(nw, name, lf)
@@ -960,6 +1008,14 @@ func (fx *FnCtx) contractMods(fc *FuncContract, ms *modSet, call *ssa.CallCommon
 	for i, e := range fc.Modifies {
 		_ = i
 		if sc, ok := e.(*SCall); ok && sc.Fun == "objects" && len(sc.Args) == 1 {
+			if fa, isF := sc.Args[0].(*SField); isF {
+				if id, ok := fa.X.(*SIdent); ok {
+					if t := fx.resolveType(id.Name+"."+fa.Name, nil); t != nil {
+						fx.addObjHeaps(ms, t, 0, 0)
+						continue
+					}
+				}
+			}
 			if id, isId := sc.Args[0].(*SIdent); isId {
 				var pkg *types.Package
 				for _, p := range fx.V.prog.AllPackages() {
@@ -975,6 +1031,35 @@ func (fx *FnCtx) contractMods(fc *FuncContract, ms *modSet, call *ssa.CallCommon
 			ms.all = true
 			ms.why = "objects() with unknown type"
 			return
+		}
+		if sc, ok := e.(*SCall); ok && sc.Fun == "arrays" && len(sc.Args) == 1 {
+			var pkg *types.Package
+			for _, p := range fx.V.prog.AllPackages() {
+				if p.Pkg.Path() == fc.Pkg {
+					pkg = p.Pkg
+				}
+			}
+			var t types.Type
+			switch a := sc.Args[0].(type) {
+			case *SIdent:
+				t = fx.resolveType(a.Name, pkg)
+			case *SField:
+				if id, ok := a.X.(*SIdent); ok {
+					t = fx.resolveType(id.Name+"."+a.Name, pkg)
+				}
+			}
+			if t != nil {
+				fx.addArrHeaps(ms, t)
+				continue
+			}
+			ms.all = true
+			ms.why = "arrays() with unknown type"
+			return
+		}
+		if sc, ok := e.(*SCall); ok && fx.V.cs.GhostFields[sc.Fun] {
+			fx.ghostHeap(&State{Heaps: map[string]*Term{}}, "G:"+sc.Fun)
+			ms.heaps["G:"+sc.Fun] = fx.V.heapLeaves["G:"+sc.Fun]
+			continue
 		}
 		if sc, ok := e.(*SCall); ok && sc.Fun == "lockstate" {
 			fx.ghostHeap(&State{Heaps: map[string]*Term{}}, "G:lock")
@@ -1169,7 +1254,9 @@ func (fx *FnCtx) havocLoop(li *loopInfo, st *State, pc *Term) {
 				if it.Kind != PElem || !fx.frameCoversLeaf(it, name) {
 					continue
 				}
-				if it.Lo == nil {
+				if it.Arr == nil {
+					inFrame, whole = True, True
+				} else if it.Lo == nil {
 					inFrame = Or(inFrame, Eq(a, it.Arr))
 					whole = Or(whole, Eq(a, it.Arr))
 				} else {
